@@ -59,7 +59,14 @@ pub fn is_iri(s: &str) -> bool { s.starts_with("http://") || s.starts_with("urn:
 pub fn is_bn(s: &str) -> bool { s.starts_with("_:") }
 /// template instantiation: unbound variable -> quad skipped; variable-bound literal in subject / non-IRI in predicate or
 /// graph position -> quad skipped; blank-node label -> one fresh node per solution (INSERT templates only)
-pub fn inst(tpl: &[QP], sols: &[Binding], insert: bool, ctr: &mut u64) -> BTreeSet<Q> {
+pub fn inst(tpl: &[QP], sols: &[Binding], insert: bool, ctr: &mut u64) -> BTreeSet<Q> { inst_pre(tpl, sols, insert, ctr, None) }
+/// the same with Kolibrie's convention for terms whose kind the dictionary does not record (relative IRIs such as `<r1>` are
+/// stored as the bare string): such a term bound to a template variable is a legal subject / predicate / graph name iff the
+/// PRE-operation dataset already uses it in that role (or as a graph name). What matters for the property is that the
+/// decision is taken on the pre-operation dataset.
+pub fn inst_pre(tpl: &[QP], sols: &[Binding], insert: bool, ctr: &mut u64, pre: Option<&Store>) -> BTreeSet<Q> {
+    let used_s = |x: &str| pre.map(|m| m.graphs.contains(x) || m.quads.iter().any(|q| q.0 == x)).unwrap_or(false);
+    let used_p = |x: &str| pre.map(|m| m.graphs.contains(x) || m.quads.iter().any(|q| q.1 == x)).unwrap_or(false);
     let mut out = BTreeSet::new();
     for b in sols {
         let mut bn: BTreeMap<String, String> = BTreeMap::new();
@@ -72,9 +79,9 @@ pub fn inst(tpl: &[QP], sols: &[Binding], insert: bool, ctr: &mut u64) -> BTreeS
                 }
             };
             let Some((s, sv)) = term(&q.s, ctr) else { continue };
-            if sv && !(is_iri(&s) || is_bn(&s)) { continue; }
+            if sv && !(is_iri(&s) || is_bn(&s) || used_s(&s)) { continue; }
             let Some((p, pv)) = term(&q.p, ctr) else { continue };
-            if pv && !is_iri(&p) { continue; }
+            if pv && !(is_iri(&p) || (!is_bn(&p) && used_p(&p))) { continue; }
             let Some((o, _)) = term(&q.o, ctr) else { continue };
             let g = match &q.g { G::Default => None, G::Named(g) => Some(g.clone()), G::Var(v) => match b.get(v) { Some(g) if is_iri(g) => Some(g.clone()), _ => continue } };
             out.insert((s, p, o, g));
